@@ -180,6 +180,13 @@ func runRaw(cfg Cfg, d Decider, img []byte, head map[string][]byte) *Obs {
 			defer cancel()
 			w.OnCommit = cancel
 			wiring += ",context-cancelled-as-the-commit-lands"
+		case 3:
+			// ... or right after the attempt's last workspace operation, before it asks for the commit
+			var cancel context.CancelFunc
+			base, cancel = context.WithCancel(base)
+			defer cancel()
+			w.OnManifestWrite = cancel
+			wiring += ",context-cancelled-after-the-manifest-write"
 		}
 	}
 	ctx := endorse.NewContext(base, ectx)
